@@ -118,6 +118,28 @@ Theorem C10_midsend_refuted :
 Proof. exact midsend_refuted. Qed.
 Print Assumptions C10_midsend_refuted.
 
+(* A worker that dies while the manager thread is NOT in wait() (busy un-pickling another result, running
+   callbacks, feeding the call queue) is seen at the next wait: the sentinel test is level-triggered over all
+   of _processes.  Together with C10_fail_all this covers "deaths accumulate while the manager is busy". *)
+Theorem C10_busy_death_noticed : forall e p, In p (procs e) -> is_proc e p = true ->
+  sentinel_ready (worker_die p e) = true /\ sentinel_ready (manager_feed (worker_die p e)) = true.
+Proof. exact busy_death_noticed. Qed.
+
+(* The model's [Submit] is one atomic event because submit() holds shutdown_lock from its broken/shutdown
+   check to the registration of the work item and flag_as_broken takes the same lock
+   (submit = submit_check then submit_register). *)
+Theorem C10_submit_is_check_then_register : forall e,
+  submit e = match submit_check e with Some x => (e, SRaise x) | None => (submit_register e, SOk (nfut e)) end.
+Proof. exact submit_split. Qed.
+
+(* Without that lock the interleaving  check ; terminate_broken ; register  would leave a future that nobody
+   completes although the manager has exited -- the situation C10_exit_all_finished excludes for the locked code.
+   (Kill instant "idle worker dies during the next call's only submit" of the harness.) *)
+Theorem C10_unlocked_submit_would_lose_a_future :
+  mgr unlocked_trace_state = Exited /\ broken unlocked_trace_state = Some TerminatedWorkerError /\
+  futs unlocked_trace_state 1 = FPending /\ 1 < nfut unlocked_trace_state.
+Proof. exact unlocked_submit_loses_future. Qed.
+
 (* A worker that dies AFTER its whole result message was written: which outcome the affected call has is a
    race between the results of the other workers and the manager thread noticing the sentinel
    (wait_result_broken_or_wakeup reads the result pipe first).  Both schedules are event sequences of the
